@@ -7,11 +7,11 @@ use crate::engine::*;
 use crate::val::{Seg, V};
 use serde_json::{json, Value as J};
 
-const STRINGS: [&str; 52] = [
+const STRINGS: [&str; 58] = [
     "", "a", "ab c", "10", "007", "1.5", "1e5", "true", "True", "NULL", "null", "~", "yes", "No", "on", "inf", "nan", "Infinity", ".inf", "0x1f", "1_000",
     "a\u{e4}", "\u{65e5}\u{672c}", "it's", "say \"hi\"", "a: b", "a #b", " lead", "trail ", "-dash", "[x]", "{y}", "a,b", "line\nbreak", "tab\there",
     "back\\slash", "x'y\"z", "*alias", "&anchor", "!tag", "%pct", "@at", "|", ">", "?", "- item", "key:", "#comment", "AWS::S3::Bucket", "arn:aws:s3:::b/k",
-    "NaN", "prod",
+    "NaN", "prod", "exports.handler = 1;\n", "two\nlines\n", "10\n", "a\n\nb", "first\n  indented\nlast", "true\n",
 ];
 const KEYSU: [&str; 14] = ["a", "b", "Name", "k1", "with space", "Type", "aws:cdk:path", "x-y_z", "10", "true", "null", "\u{fc}ber", "it's", "Fn::Join"];
 
